@@ -56,6 +56,7 @@ def make_world(base, r, variant):
     put(src, "u_same.dat", r.randbytes(4096), 1004); put(tpl, "u_same.dat", r.randbytes(4096), 990)
     put(src, "big_delta.bin", big1, 1005); put(tpl, "big_delta.bin", similar(big1, r), 800)
     put(src, "big_fb.bin", r.randbytes(150000), 1006); put(tpl, "big_fb.bin", r.randbytes(140000), 801)
+    put(src, "shrunk.log", r.randbytes(r.choice([1, 1000, 4095])), 1011); put(tpl, "shrunk.log", r.randbytes(B + 4097), 804)   # a tiny source over a large destination
     with open(src + "/big_sparse.img", "wb") as f:
         f.truncate(300000); f.seek(8192); f.write(b"\x11" * 5000); f.seek(200000); f.write(b"\x22" * 9000); f.flush(); os.fsync(f.fileno())
     os.utime(src + "/big_sparse.img", ns=(ew.T0NS + 1007 * NS,) * 2)
